@@ -53,6 +53,13 @@ func (u *DynUniverse) Wrap(markers ...any) any {
 func NewDynUniverse(r *rand.Rand) *DynUniverse {
 	u := &DynUniverse{BaseURI: "http://h/root.json", Docs: map[string]string{}}
 	n := 1 + r.IntN(5) // resources incl. the root
+	if r.IntN(40) == 0 {
+		n = Pick(r, []int{9, 17, 33, 34, 65, 66, 70}) // size stress: long chains, deep dynamic scopes
+	}
+	flood := 0
+	if r.IntN(15) == 0 {
+		flood = Pick(r, []int{7, 8, 15, 16, 31, 32, 33, 62, 63, 64, 65, 66, 70, 130}) // many unrelated dynamic anchor names
+	}
 	remote := n > 1 && r.IntN(5) < 2
 	uri := func(i int) string {
 		if i == 0 {
@@ -93,6 +100,17 @@ func NewDynUniverse(r *rand.Rand) *DynUniverse {
 		}
 	}
 	u.Markers = append(u.Markers, "X")
+	if flood > 0 {
+		// unrelated $dynamicAnchor names (never referenced): in the root (sorted before and after "cand") or in a later resource
+		host := res[0]["$defs"].(map[string]any)
+		if r.IntN(3) == 0 {
+			host = res[r.IntN(n)]["$defs"].(map[string]any)
+		}
+		pre := Pick(r, []string{"a", "z"})
+		for i := 0; i < flood; i++ {
+			host[fmt.Sprintf("%s%03d", pre, i)] = map[string]any{"$dynamicAnchor": fmt.Sprintf("f%d", i), "const": "F"}
+		}
+	}
 	nchains := 1
 	if n >= 2 && r.IntN(10) < 4 {
 		nchains = 2
@@ -237,7 +255,12 @@ func NewDynUniverse(r *rand.Rand) *DynUniverse {
 		}
 	}
 	u.Root = Text(res[0])
-	u.Shape = fmt.Sprintf("n%d|remote=%v|kinds=%s|chains=%d|%s|final:%s", n, remote, strings.Join(kinds, ""), nchains, strings.Join(shape, ">"), formKind(u.Final))
+	kindStr := strings.Join(kinds, "")
+	if n > 8 {
+		kindStr = fmt.Sprintf("(%d kinds)", n)
+		shape = shape[:min(len(shape), 4)]
+	}
+	u.Shape = fmt.Sprintf("n%d|flood=%d|remote=%v|kinds=%s|chains=%d|%s|final:%s", n, flood, remote, kindStr, nchains, strings.Join(shape, ">"), formKind(u.Final))
 	return u
 }
 
